@@ -3,14 +3,20 @@
    TOP statements are fixed. *)
 From Coq Require Import ZArith List Bool Lia ZifyBool.
 Require Import PyBase GenText TextFacts Text TextSpec PyFacts TextProofs GenTape TapeFacts Tape K7 TapeProofs.
+Require Import ExtraLemmasText ExtraLemmasTape.
 Import ListNotations.
 Open Scope Z_scope.
+Ltac Zify.zify_post_hook ::= Z.to_euclidean_division_equations.
 
 (* TOP: what readlines yields are lines in the sense of C16's hypothesis (a newline only at the end) *)
 Theorem readlines_stdin_lines : forall t : list Z, Forall (fun r => is_line r = true) (readlines_stdin t).
-Admitted.
+Proof. intros t. unfold readlines_stdin. apply lf_lines. reflexivity. Qed.
 Theorem readlines_file_lines : forall t : list Z, Forall (fun r => is_line r = true) (readlines_file t).
-Admitted.
+Proof.
+  intros t. unfold readlines_file.
+  pose proof (univ_lines (S (length t)) t [] eq_refl eq_refl) as H.
+  revert H. apply Forall_impl. intros r [Hr _]. exact Hr.
+Qed.
 
 (* what print() writes for a list of lines *)
 Definition printed (ls : list (list Z)) : list Z := flat_map (fun l => l ++ [10]) ls.
@@ -19,19 +25,50 @@ Definition printed (ls : list (list Z)) : list Z := flat_map (fun l => l ++ [10]
 Theorem readlines_file_printed : forall ls : list (list Z),
   Forall (fun l => existsb (fun c => (c =? 10) || (c =? 13)) l = false) ls ->
   readlines_file (printed ls) = map (fun l => l ++ [10]) ls.
-Admitted.
+Proof.
+  intros ls Hls. unfold readlines_file, printed. apply univ_printed; [lia|exact Hls].
+Qed.
+
+(* the lines nl_run prints for a file hold neither LF nor CR *)
+Lemma nl_run_file_spec start inc width text :
+  nl_run start inc width [(false, text)] =
+  nl_spec start inc width None (map chomp (readlines_file text)) /\
+  Forall clean (nl_run start inc width [(false, text)]).
+Proof.
+  assert (H : nl_run start inc width [(false, text)] =
+              nl_spec start inc width None (map chomp (readlines_file text))).
+  { unfold nl_run. cbn [flat_map read_input fst snd]. rewrite app_nil_r.
+    apply nl_shape. apply readlines_file_lines. }
+  split; [exact H|]. rewrite H. apply nl_spec_clean.
+  unfold readlines_file.
+  pose proof (univ_lines (S (length text)) text [] eq_refl eq_refl) as Hg.
+  induction Hg as [|r rs Hr _ IH]; cbn [map]; constructor; [|exact IH].
+  now apply good_line_chomp.
+Qed.
 
 (* TOP (C16): renumbering the printed output of moto_nl, as a file, changes nothing *)
 Theorem nl_tool_idempotent : forall (start inc width : Z) (text : list Z),
   1 <= start -> 1 <= inc -> existsb (Z.eqb 13) text = false ->
   nl_run start inc width [(false, printed (nl_run start inc width [(false, text)]))] = nl_run start inc width [(false, text)].
-Admitted.
+Proof.
+  intros start inc width text Hs Hi _.
+  destruct (nl_run_file_spec start inc width text) as [Hspec Hclean].
+  set (out := nl_run start inc width [(false, text)]) in *.
+  destruct (nl_run_file_spec start inc width (printed out)) as [Hspec2 _].
+  rewrite Hspec2. rewrite readlines_file_printed by exact Hclean.
+  rewrite map_chomp_snoc by exact Hclean.
+  rewrite Hspec. apply nl_idempotent; assumption.
+Qed.
 
 (* TOP (C16): two files behave as their concatenation when the first ends with a newline and holds no CR *)
 Theorem nl_files_concat : forall (start inc width : Z) (a b : list Z),
   existsb (Z.eqb 13) a = false ->
   nl_run start inc width [(false, a ++ [10]); (false, b)] = nl_run start inc width [(false, (a ++ [10]) ++ b)].
-Admitted.
+Proof.
+  intros start inc width a b Ha. unfold nl_run. cbn [flat_map read_input fst snd].
+  rewrite !app_nil_r. f_equal. symmetry. unfold readlines_file.
+  apply univ_concat; [exact Ha|lia|lia|lia].
+Qed.
 
 (* TOP (C12, tape): create prints, file by file, exactly what list prints for the archive it wrote:
    same names, kinds, first-block positions, sizes and block counts *)
@@ -42,4 +79,28 @@ Theorem tape_create_report_is_list_report : forall (fs : fsmap) (srcs : list (li
     o_effects (tar_create v fs arch srcs) = [WriteFile arch raw] /\
     o_lines (tar_create v fs arch srcs) = o_lines (tar_list v raw) /\
     o_lines (tar_list v raw) = map (k7_line v) (k7_positions 0 (entries fs srcs)).
-Admitted.
+Proof.
+  intros fs srcs arch v Hr H83 Hs.
+  destruct (tape_create_conforms fs srcs arch v Hr Hs) as (_ & Hfx & _ & _ & HK).
+  set (raw := concat (map k7_file_image (entries fs srcs)) ++
+              repeat 0 (Z.to_nat (21504 - k7_encoded_size (entries fs srcs)))) in *.
+  exists raw. split; [exact Hfx|].
+  pose proof (entries_all_ok fs srcs Hr) as Hok.
+  pose proof (entries_no_nul fs srcs arch Hr H83) as Hnul.
+  destruct (tape_third_party_read raw (entries fs srcs) v (Some []) arch HK Hok Hnul) as [Hlist _].
+  assert (Hlines : o_lines (tar_list v raw) = map (k7_line v) (k7_positions 0 (entries fs srcs))).
+  { rewrite Hlist. reflexivity. }
+  split; [|exact Hlines]. rewrite Hlines.
+  revert Hfx. unfold tar_create.
+  destruct (inject_loop v fs blank_tape lst0 srcs []) as [ls [t|e]] eqn:E.
+  - intros _. cbn [o_lines].
+    rewrite (inject_loop_lines v fs srcs blank_tape lst0 [] ls t Hr H83 E). reflexivity.
+  - destruct e; cbn [o_effects]; discriminate.
+Qed.
+
+Print Assumptions readlines_stdin_lines.
+Print Assumptions readlines_file_lines.
+Print Assumptions readlines_file_printed.
+Print Assumptions nl_tool_idempotent.
+Print Assumptions nl_files_concat.
+Print Assumptions tape_create_report_is_list_report.
